@@ -87,6 +87,16 @@ class JsonSchemaParser:
         for key, val in schema.items():
             if key in constant.CONSTRAINTS_MAP:
                 constraints[constant.CONSTRAINTS_MAP[key]] = val
+        if constraints.get('max_length') == 0 and not isinstance(constraints['max_length'], bool):
+            # maxLength / maxItems / maxProperties: 0 allows the empty value only
+            # (Rule takes positive bounds for max_length, but the exact length 0)
+            constraints.pop('max_length')
+            if not constraints.get('min_length'):
+                constraints.pop('min_length', None)
+                constraints['length'] = 0
+            # a positive min_length with max_length 0 is unsatisfiable: left to Rule to report
+            else:
+                constraints['max_length'] = 0
         return constraints
 
     def parse_field(self, schema: dict,
@@ -248,6 +258,9 @@ class JsonSchemaParser:
         dependent_required = schema.get('dependentRequired')
         pattern_properties = schema.get("patternProperties")  # not supported now
 
+        if max_properties == 0 and not isinstance(max_properties, bool) and not required:
+            # only the empty object is valid: no property can be present
+            properties = {}
         if not properties:
             if property_names:
                 key_obj = {'type': 'string'}
@@ -260,6 +273,10 @@ class JsonSchemaParser:
                 constraints.update(min_length=min_properties)
             if max_properties:
                 constraints.update(max_length=max_properties)
+            elif max_properties == 0 and not isinstance(max_properties, bool):
+                constraints.pop('max_length', None)
+                constraints.pop('min_length', None)
+                constraints.update(length=0)
             return Rule.annotate(dict, key_type, Any, constraints=constraints)
 
         attrs = {}
